@@ -1,7 +1,8 @@
-(* Concrete witnesses (by vm_compute) that the full-strength C02 statement is false for the faithful
-   model of the unchanged tracer: S9 (stale er_size after a packet switch) and S18 (smaller buffer
-   installed by the closing callback during a switch).  Both are replayed on the compiled C by the
-   check (known findings). *)
+(* Regression examples (by vm_compute): the histories that used to witness S9 (stale er_size after a
+   packet switch) and S18 (smaller buffer installed by the closing callback during a switch) against
+   the full-strength C02 statement.  Both defects are repaired in /repo (the size is computed again
+   after a switch; the assert of _reserve_er_space became a discard) and in the model: the former
+   witnesses now end without error, with the offending record discarded and counted. *)
 From Coq Require Import List Arith Bool ZArith String.
 Import ListNotations.
 From BT.Base Require Import Bits.
@@ -22,11 +23,21 @@ Definition h_s9 : list call := [COpen; CTrace 0 [VArr [VInt 1]]; CTrace 1 [VArr 
 Definition has_err (code : nat) (l : list ev) : bool :=
   existsb (fun e => match e with EErr c => Nat.eqb c code | _ => false end) l.
 
+Definition n_disc (l : list ev) : nat :=
+  List.length (filter (fun e => match e with EDisc => true | _ => false end) l).
+Definition in_bounds (w : world) : bool :=
+  (c_at (w_c w) <=? c_psize (w_c w)) && (List.length (c_s (w_c w)) =? c_psize (w_c w)).
+
 (* buffers of 21, 22, 23 bytes: the second record is sized 72 bits at bit 120, the packet is
-   switched, and the record needs 96 bits at bit 96: the 64-bit member is stored past the buffer *)
-Lemma s9_witness :
-  forallb (fun buf => let w := run d_s9 buf [] [] h_s9 in w_err w && has_err 1 (w_log w)) [21; 22; 23] = true
-  /\ w_err (run d_s9 24 [] [] h_s9) = false.
+   switched, and the record needs 96 bits at bit 96 of the new packet (88 available at most): before
+   the repair the 64-bit member was stored past the buffer (EErr 1); now the size is computed again,
+   the record is discarded (one EDisc, events_discarded = 1) and nothing is written out of bounds *)
+Lemma s9_regression :
+  forallb (fun buf => let w := run d_s9 buf [] [] h_s9 in
+                      negb (w_err w) && (n_disc (w_log w) =? 1) && (c_disc (w_c w) =? 1) && in_bounds w &&
+                      c_open (w_c w) && (c_at (w_c w) =? c_off_content (w_c w)))
+          [21; 22; 23] = true
+  /\ (let w := run d_s9 24 [] [] h_s9 in negb (w_err w) && (n_disc (w_log w) =? 0)) = true.
 Proof. vm_compute. split; reflexivity. Qed.
 
 (* header 64 bits, records of 48 bits, buffer of 16 bytes; the closing callback invoked for the
@@ -37,7 +48,11 @@ Definition d_s18 : dstm :=
          None None [mk_ert 0 None (Some (mk_sft 1 [("a"%string, FInt false 48 8)]))] false 64.
 Definition h_s18 : list call := [COpen; CTrace 0 [VArr [VInt 1]]; CTrace 0 [VArr [VInt 2]]].
 Definition o_s18 : list ans := [default_ans; mk_ans false None (Some 13) 1 false; default_ans; default_ans].
-Lemma s18_witness :
-  (let w := run d_s18 16 [] o_s18 h_s18 in w_err w && has_err 2 (w_log w)) = true
+(* before the repair: EErr 2 (the assert); now the second record, which does not fit the 13-byte
+   packet just opened (104 - 64 = 40 bits available, 48 needed), is discarded and counted *)
+Lemma s18_regression :
+  (let w := run d_s18 16 [] o_s18 h_s18 in
+   negb (w_err w) && negb (has_err 2 (w_log w)) && (n_disc (w_log w) =? 1) && (c_disc (w_c w) =? 1) &&
+   in_bounds w && (c_psize (w_c w) =? 104) && c_open (w_c w) && (c_at (w_c w) =? c_off_content (w_c w))) = true
   /\ w_err (run d_s18 16 [] [] h_s18) = false.
 Proof. vm_compute. split; reflexivity. Qed.
